@@ -66,12 +66,43 @@ func c10Guards(p *chk.Prog, r *chk.Report) {
 	me := func(e ast.Expr) bool { return f.MatchWith("RECV.myNode", e, chk.H("RECV", isRecv(f))) != nil }
 	// the node predicate handed to hasHealthyEndpoint is read with the polarity hasHealthyEndpoint gives it
 	skipWhen, _ := c10SkipPolarity(p)
+	// the predicate as a function to look into: a literal (directly or through a local), a function of this module, or a
+	// method of the controller taken as a value on the receiver
+	predFn := func(e ast.Expr) (*chk.Fn, types.Object) {
+		if lit := funcLitOf(f, g, e); lit != nil {
+			if len(lit.Type.Params.List) != 1 || len(lit.Type.Params.List[0].Names) != 1 {
+				return f.LitFn(lit), nil
+			}
+			return f.LitFn(lit), f.Info().Defs[lit.Type.Params.List[0].Names[0]]
+		}
+		var obj types.Object
+		switch y := ast.Unparen(e).(type) {
+		case *ast.Ident:
+			obj = f.Info().Uses[y]
+		case *ast.SelectorExpr:
+			if sn := f.Info().Selections[y]; sn != nil && sn.Kind() == types.MethodVal && isRecv(f)(y.X) {
+				obj = sn.Obj()
+			}
+		}
+		fo, isFn := obj.(*types.Func)
+		if !isFn {
+			return nil, nil
+		}
+		df := p.FnOf(fo)
+		if df == nil || df.Body == nil {
+			return nil, nil
+		}
+		var par types.Object
+		if pv := df.Param(0); pv != nil {
+			par = pv
+		}
+		return df, par
+	}
 	acceptAll := func(e ast.Expr) bool {
-		lit := funcLitOf(f, g, e)
-		if lit == nil {
+		lf, _ := predFn(e)
+		if lf == nil {
 			return false
 		}
-		lf := f.LitFn(lit)
 		rets := lf.Graph().Returns()
 		for _, rt := range rets {
 			if len(retResults(rt)) != 1 || !lf.IsConstBool(retResults(rt)[0], !skipWhen) {
@@ -81,13 +112,11 @@ func c10Guards(p *chk.Prog, r *chk.Report) {
 		return len(rets) > 0
 	}
 	onlyMe := func(e ast.Expr) bool {
-		lit := funcLitOf(f, g, e)
-		if lit == nil || len(lit.Type.Params.List) != 1 || len(lit.Type.Params.List[0].Names) != 1 {
+		lf, par := predFn(e)
+		if lf == nil || par == nil {
 			return false
 		}
-		lf := f.LitFn(lit)
 		lg := lf.Graph()
-		par := lf.Info().Defs[lit.Type.Params.List[0].Names[0]]
 		isPar := func(y ast.Expr) bool { return lf.ObjOf(y) == par }
 		// left out exactly when the node is unknown or another node
 		other := chk.GOr(lg.GPat(true, "P == nil", chk.H("P", isPar)), lg.GPat(false, "*P == RECV.myNode", chk.H("P", isPar)),
@@ -269,6 +298,7 @@ func c10Sticky(p *chk.Prog, r *chk.Report) {
 		skip = dfs(bodyB)
 	}
 	x.Check("hasHealthyEndpoint:false-is-sticky", addrLoop.Pos(), !skip, "", "an entry that cannot serve does not always force its address to false (a later or earlier ready entry wins)")
+	c10EveryEntry(x, f, addrLoop)
 	for _, fs := range falses {
 		x.Check("hasHealthyEndpoint:false:cannot-serve", fs.Pos(), g.Dominated(fs, cannot), "", "an address is vetoed by an entry that can serve")
 	}
@@ -391,6 +421,7 @@ func c10StickyValueForm(x *chk.R, f *chk.Fn, g *chk.Graph, filter func(ast.Expr)
 	x.Check("hasHealthyEndpoint:true:can-serve", t.Pos(), okT, "", "an address can be marked ready by an entry that cannot serve")
 	x.Check("hasHealthyEndpoint:false-is-sticky", addrLoop.Pos(), okF && !loopSkipsWithout(g, addrLoop, func(n ast.Node) bool { return n == t.Top }, chk.NoGuard) && !loopHasBreak(g, addrLoop), "", "an entry that cannot serve does not always force its address to false (a later or earlier ready entry wins)")
 	x.Check("hasHealthyEndpoint:false:cannot-serve", t.Pos(), okF, "", "an address is vetoed by an entry that can serve")
+	c10EveryEntry(x, f, addrLoop)
 	// the earlier opinion is read in the same iteration, before the store
 	okRead := false
 	for _, s := range g.Find(func(n ast.Node) bool {
@@ -419,4 +450,15 @@ func c10StickyValueForm(x *chk.R, f *chk.Fn, g *chk.Graph, filter func(ast.Expr)
 	}
 	x.Check("hasHealthyEndpoint:has-true-result", f.Pos(), nt == 1, "", "unexpected shape")
 	return true
+}
+
+// c10EveryEntry: the scan that collects the opinions looks at every slice, every entry and every address: none of the
+// loops around the per-address update is left early (an entry that is never looked at can neither veto nor vouch).
+func c10EveryEntry(x *chk.R, f *chk.Fn, addrLoop *ast.RangeStmt) {
+	bad := scanLeftEarly(f, addrLoop)
+	pos := addrLoop.Pos()
+	if bad != nil {
+		pos = bad.Pos()
+	}
+	x.Check("hasHealthyEndpoint:every-entry-examined", pos, bad == nil, "", "the scan over slices, entries and addresses can end before the last one (break / return / jump out of the loops): later entries are never examined")
 }
